@@ -287,6 +287,7 @@ _UBITS = {"u8": 8, "u16": 16, "u32": 32, "u64": 64, "u128": 128, "usize": 64,
           "i8": 7, "i16": 15, "i32": 31, "i64": 63, "i128": 127, "isize": 63}
 
 
+_FN = [None]      # the function whose site is being discharged (types of parameters)
 _ENV = [{}]       # term -> (lo, hi): what the edges dominating the site being discharged say about integer terms
 
 
@@ -344,6 +345,16 @@ def interval(F, t, depth=0):
         g = _ENV[0].get(P.strip(t))
         if g is not None:
             return g
+    if t[0] == "discr" and _FN[0] is not None:
+        # `*self as usize` on a fieldless enum: between its smallest and largest declared discriminant
+        s_ = P.strip(t[1])
+        if s_[0] == "param":
+            ty = _FN[0].local_ty(s_[1]).lstrip("&").replace("mut ", "")
+            a = F.adts.get(ty)
+            if a is not None and a["kind"] == "Enum" and all(not v["fields"] for v in a["variants"]):
+                ds = [v["discr"] for v in a["variants"]]
+                return (min(ds), max(ds))
+        return None
     m = enum_code_max(F, t)
     if m is not None:
         return (0, m)
@@ -503,6 +514,7 @@ def _bounded_counter(F, fn, pr, site):
 def discharge(F, cg, site, pr, ctxinfo):
     fn = site.fn
     _ENV[0] = {}
+    _FN[0] = fn
     if site.kind in ("assert-bounds", "assert-overflow"):
         try:
             _ENV[0] = guard_env(F, fn, pr, site.block)
@@ -525,7 +537,7 @@ def _discharge(F, cg, site, pr, ctxinfo):
             m = enum_code_max(F, site.info["index"])
             if m is not None and m < n:
                 return "R-enum-index"
-            iv = interval(F, site.info["index"])
+            iv = interval(F, site.info["index"]) or interval(F, P.strip(P.narrow_deep(P.strip(site.info["index"]))))
             if iv is not None and 0 <= iv[0] and iv[1] < n:
                 return "R-interval"
             # index is the item of a `for i in 0..CONST` loop? (not present in this crate)
